@@ -135,6 +135,7 @@ func c11LeafIndex(set []tls.Certificate, got *tls.Certificate) int {
 type c11CertJSON struct {
 	Cn   string   `json:"cn"`
 	Sans []string `json:"sans"`
+	Mint string   `json:"mint,omitempty"` // which minted key pair ("" = the current one)
 }
 type c11Query struct {
 	Sni    []string `json:"sni"`
@@ -142,8 +143,9 @@ type c11Query struct {
 	Strict int      `json:"strict"`
 }
 type c11SelCase struct {
-	Set []c11CertJSON `json:"set"`
-	Q   []c11Query    `json:"q"`
+	Set  []c11CertJSON `json:"set"`
+	Prev []c11CertJSON `json:"prev,omitempty"` // the set published on the same listener before Set
+	Q    []c11Query    `json:"q"`
 }
 
 func c11SniClass(labels []string) string {
@@ -178,6 +180,13 @@ func c11RunSelect(c *c11SelCase, report func(q c11Query, strict bool, got int, g
 		cfg, err := TLSConfig(src, strict, 0, 0, nil)
 		if err != nil {
 			panic(err)
+		}
+		if len(c.Prev) > 0 { // the listener's past: an earlier, other set
+			var prev []tls.Certificate
+			for _, cj := range c.Prev {
+				prev = append(prev, c11Mint(cj.Cn, cj.Sans, "sel"+cj.Mint).cert)
+			}
+			c11Publish(src, prev)
 		}
 		c11Publish(src, set)
 		for _, q := range c.Q {
@@ -243,7 +252,7 @@ func c11SelectPart(path string, selftest bool) (cases, evals, nontrivial int64, 
 					if want == 0 {
 						ws = "none"
 					}
-					one := c11SelCase{Set: c.Set, Q: []c11Query{q}}
+					one := c11SelCase{Set: c.Set, Prev: c.Prev, Q: []c11Query{q}}
 					verifx.Fail(one, map[string]any{"sub": "select", "strict": strict, "sni": c11SniClass(q.Sni), "want": ws, "got": gs},
 						"set %+v, server name %q, strict=%v: presented certificate %d (err=%v), Select prescribes %d",
 						c.Set, strings.Join(q.Sni, "."), strict, got, gerr, want)
